@@ -301,8 +301,13 @@ impl Def {
             args.push(format!("priority = {prio}"));
         }
         if p.ignore_case {
-            // both spellings of the flag list are accepted
-            args.push(if (leaf + def_name.len()) % 4 == 3 { "ignore(case,)" } else { "ignore(case)" }.to_string());
+            // every spelling of the flag list that the attribute parser accepts (any delimiter, trailing comma)
+            args.push(match (leaf + def_name.len()) % 16 {
+                3 | 11 => "ignore(case,)",
+                7 => "ignore[case]",
+                15 => "ignore{case}",
+                _ => "ignore(case)",
+            }.to_string());
         }
         if let Some(g) = p.allow_greedy {
             args.push(format!("allow_greedy = {g}"));
